@@ -346,7 +346,9 @@ def _qtt(pool, s):
 
 @op('svd')
 def _svd(pool, s):
-    a = pool.pick(lambda it: bounded(it) and it['t'].order >= 2 and all(c == 1 for c in it['t'].col_dims) and small(it), s['i'])
+    # (a relative threshold is undefined on an exactly-zero tensor: only finite, non-zero objects)
+    a = pool.pick(lambda it: bounded(it) and it['t'].order >= 2 and all(c == 1 for c in it['t'].col_dims) and small(it)
+                  and finite_nonzero(pool, it), s['i'])
     if a is None:
         return None
     ta = a['t']
@@ -426,6 +428,20 @@ def _ortho(pool, s):
             ta.ortho()
     boundary_open = ta.ranks[0] != 1 or ta.ranks[-1] != 1
     return [], {id(ta): 'respecified' if (trunc or boundary_open) else 'preserve'}
+
+
+@op('poke')
+def _poke(pool, s):
+    # the bluntest in-place operation a caller can apply to a result: write into one of its core arrays
+    a = pool.pick(lambda it: it['derived'], s['i'])
+    if a is None:
+        return None
+    ta = a['t']
+    c = ta.cores[s['j'] % ta.order]
+    if not c.flags.writeable:
+        return None
+    c *= 2.0
+    return [], {id(ta): 'respecified'}
 
 
 # ---- solvers / integrators / data-driven routines -----------------------------------------------------------
@@ -573,7 +589,7 @@ def _arr(pool, s):
 
 OP_NAMES = sorted(OPS)
 WEIGHTED = (['add', 'scalar', 'matmul', 'tensordot', 'tensordot', 'concatenate', 'transpose', 'copy', 'diag', 'squeeze', 'qtt', 'svd', 'svd',
-             'rank_tensordot', 'readout', 'residual', 'new_vec', 'new_op'] * 2 + ['ortho'] * 10 +
+             'rank_tensordot', 'readout', 'residual', 'new_vec', 'new_op'] * 2 + ['ortho'] * 8 + ['poke'] * 4 +
             ['sle', 'evp', 'evp', 'power', 'euler', 'euler', 'errors', 'adaptive', 'splitting', 'tdvp', 'tdvp', 'tdmd', 'arr'])
 
 
@@ -587,7 +603,8 @@ def history_case(draw):
     return {'d': d, 'n': n, 'steps': steps, 'seed': draw(gen.SEED)}
 
 
-INPLACE_OPS = {'ortho'}
+INPLACE_OPS = {'ortho', 'poke'}
+OVERWRITE_OPS = {'tensordot', 'rank_tensordot', 'concatenate', 'transpose', 'svd'}
 
 
 def body_history(c):
@@ -612,7 +629,7 @@ def body_history(c):
             raise
         except Exception as exc:     # a library (or harness) exception inside a rule is not what C06 is about
             lab.add('rule_exception:' + s['op'])
-            if s['op'] in INPLACE_OPS:
+            if s['op'] in INPLACE_OPS or (s['flag'] and s['op'] in OVERWRITE_OPS):
                 # a failed in-place sweep leaves its target unspecified: re-snapshot everything that changed is not possible,
                 # so stop the history here (the prefix has been checked)
                 break
@@ -645,7 +662,7 @@ FOLLOWUPS = ['ortho_left', 'ortho_right', 'ortho_left_partial', 'ortho_trunc', '
 PRODUCERS = ['add', 'sub', 'lmul', 'rmul', 'matmul_op_vec', 'matmul_op_op', 'tensordot_last-first', 'tensordot_last-last',
              'tensordot_first-last', 'tensordot_first-first', 'tensordot_complete_self', 'rank_tensordot', 'concatenate_tt', 'concatenate_list',
              'transpose', 'conj', 'rank_transpose', 'copy', 'diag', 'squeeze', 'tt2qtt', 'qtt2tt', 'svd', 'pinv', 'evp_nev2', 'sle_als', 'tdvp1site',
-             'explicit_euler', 'tdmd_standard']
+             'explicit_euler', 'tdmd_standard', 'overwrite_targets']
 CROSS_CASES = [{'producer': p, 'layout': l, 'followup': f} for p in PRODUCERS for l in LAYOUTS for f in FOLLOWUPS]
 
 
@@ -774,6 +791,21 @@ def prepare(p, layout, rng, dims):
     if p == 'pinv':
         return ops, lambda: [a.pinv(1, threshold=1e-12), a.pinv(2, threshold=1e-12, ortho_l=False, ortho_r=False),
                              a.pinv(2, threshold=1e-12, ortho_r=False), a.pinv(1, ortho_l=False)]
+    if p == 'overwrite_targets':
+        # overwrite=True keeps self alive as the working object: self and everything returned are distinct live objects
+        def f():
+            out = []
+            a2 = a.copy()
+            u, s_, v = a2.svd(1, overwrite=True)
+            out += [u, v, a2]
+            a3 = a.copy()
+            out += [a3.pinv(2, threshold=1e-12, overwrite=True), a3]
+            a4 = a.copy()
+            out += [a4.tensordot(b, 1, mode='last-first', overwrite=True) if dims[-1] == dims[0] else a4.concatenate(b, overwrite=True)]
+            a5 = a.copy()
+            out += [a5.concatenate(list(b.cores), overwrite=True)]
+            return out
+        return ops, f
     if p in ('evp_nev2', 'tdvp1site'):
         H = rng.standard_normal((N, N))
         H = TT(dense.op_cores((H + H.T) / 2, dims))
